@@ -175,7 +175,21 @@ def history_requests(run):
     seqs = []
     for _ in range(300 if run.tier == "thorough" else 60):
         seqs.append([r.choice(pool) for _ in range(2 + r.below(7))])
+    # programs stopped by the frame limit, then terminating recursions on both sides of the (default) limit:
+    # the limit a program sees must not depend on how many earlier programs hit it
+    near, over = limit_boundary_requests()
+    pool += near + over
+    for k in (1, 2, 5):
+        for o in over:
+            seqs.append(near[:4] + [o] * k + near)
     return pool, seqs
+
+
+def limit_boundary_requests():
+    near = [{"code": f"local f(n) = if n == 0 then 0 else 1 + f(n - 1); f({d})"} for d in range(186, 202)]
+    over = [{"code": "local f(n) = 1 + f(n + 1); f(0)"},
+            {"code": "local o = {f(n): 1 + self.f(n + 1)}; o.f(0)"}]
+    return near, over
 
 
 def cli_deep(run, bindir):
